@@ -263,6 +263,11 @@ func CheckGraph(g *Graph, escaped map[string][]byte, inScope func(gno.PkgID) boo
 						}
 					}
 				}
+				if o.Info.IsEscaped && !(o.Info.RefCount == 1 && ow != nil && holds) {
+					// not the re-owned-after-escape state (sole referrer recorded as owner): the recorded
+					// owner is gone, holds no reference, or the object is still shared
+					clause = "owner-stale-on-escaped-object"
+				}
 				detail = fmt.Sprintf("; recorded owner %s exists=%v holds-reference=%v; referrers %v", o.Info.OwnerID, ow != nil, holds, head(referrers[id], 4))
 			}
 			add(clause, id, "OwnerID set=%v but RefCount=%d IsEscaped=%v kind %s%s", hasOwner, o.Info.RefCount, o.Info.IsEscaped, o.Kind, detail)
